@@ -58,6 +58,19 @@ func runC05(c *Ctx, idx int) {
 		f = newFamilyFrom(buildGenome(r, sp, 1), "built-mostly-disabled", o)
 		mostlyDisabled = true
 		c.Count("families.mostly_disabled", 1)
+	} else if idx%10 == 8 {
+		// the shipped modular genome (rewired): the mutators that leave the structure alone treat it like any other genome - the
+		// guard of toggle-enable looks at connection genes, a link into a module is no substitute for one
+		mg, err := loadShippedGenome(modularGenomeFile)
+		if err != nil {
+			panic("harness: " + err.Error())
+		}
+		ms := snapGenome(mg)
+		modularVariants(r, ms)
+		f = newFamilyFrom(buildFromSnap(ms), "file:"+modularGenomeFile+" (modular, rewired)", o)
+		f.Ops = []opKind{opToggleEnable, opToggleEnable, opToggleEnable, opReEnable, opLinkWeights, opAllNonstructural}
+		mostlyDisabled = true // (no growth by structural mutation and crossover)
+		c.Count("families.modular", 1)
 	} else {
 		f = newFamily(r, o)
 	}
@@ -108,6 +121,9 @@ func c05Mutation(c *Ctx, f *Family, r *rand.Rand) {
 // c05Step applies one monitored mutation to g in place; src is the member g was copied from (siblings are copies of it)
 func c05Step(c *Ctx, f *Family, r *rand.Rand, g, src *genetics.Genome) bool {
 	op := c05Mutators[r.Intn(len(c05Mutators))]
+	if len(f.Ops) > 0 {
+		op = f.Ops[r.Intn(len(f.Ops))]
+	}
 	// record state: empty / matching / as left by the history
 	mode := r.Intn(3)
 	switch mode {
